@@ -81,7 +81,15 @@ fn check_oti_new(ctx: &Ctx, F: u64, T: u16, Z: u8, N: u16, Al: u8) -> bool {
     ];
     let r = guarded(|| {
         let o = Oti::new(F, T, Z, N, Al);
-        (o.serialize(), Oti::deserialize(&o.serialize()) == o)
+        let back = Oti::deserialize(&o.serialize());
+        // "an equal value": by ==, by the total order and by the hash the type derives
+        let hash = |x: &Oti| {
+            use std::hash::{Hash, Hasher};
+            let mut h = std::collections::hash_map::DefaultHasher::new();
+            x.hash(&mut h);
+            h.finish()
+        };
+        (o.serialize(), back == o && back.cmp(&o) == std::cmp::Ordering::Equal && hash(&back) == hash(&o))
     });
     match r {
         Err(_) => true, // refused by the constructor: not a representable constructed value (C19's business)
@@ -234,7 +242,8 @@ pub fn run(ctx: &Ctx) -> i32 {
                             check_oti_buf(ctx, buf);
                             n += 1;
                         }
-                        if T > 0 && Z > 0 && Al > 0 && check_oti_new(ctx, F, T as u16, Z as u8, N as u16, Al as u8) {
+                        // (whatever the constructor accepts, including a zero block count or symbol size)
+                        if Al > 0 && check_oti_new(ctx, F, T as u16, Z as u8, N as u16, Al as u8) {
                             n += 1;
                         }
                         let mut h = H64::new();
@@ -260,7 +269,7 @@ pub fn run(ctx: &Ctx) -> i32 {
             // also through the constructor where it admits the value
             let F = u64::from_be_bytes([0, 0, 0, buf[0] & 0x0F, buf[1], buf[2], buf[3], buf[4]]);
             let T = u16::from_be_bytes([buf[6], buf[7]]);
-            if T > 0 && buf[8] > 0 && buf[11] > 0 && T % buf[11] as u16 == 0 {
+            if buf[11] > 0 && T % buf[11] as u16 == 0 {
                 if check_oti_new(ctx, F, T, buf[8], u16::from_be_bytes([buf[9], buf[10]]), buf[11]) {
                     oti_new_ok.fetch_add(1, Relaxed);
                 }
